@@ -193,6 +193,29 @@ def content_family(chk):
             tags = {f[2]: [names[cat][p] for p in pats] for f in all_files(ents)}
             native_check(chk, cat, ents, pats, names[cat], '%s a file called %r with findings in its text next to eligible files' % (cat, bad), tags)
             chk.ok()
+    # EVERY pattern of a category selected, on files whose text holds other version-like strings behind the pragma (a constant "1.0.0", a comment
+    # `v2.9.1`) and that have findings for the version-gated patterns: the directory result is still the union of the per-file results
+    from .. import reportlib as rl
+    body_ = ('library SafeMath { function add(uint256 a, uint256 b) internal pure returns (uint256) { return a + b; } }\ncontract G%d {\n    using SafeMath for uint256;\n'
+             '    string public constant VERSION = "%s";\n    uint256 total;\n    // port of v%s\n    function f(uint256 a) public {\n'
+             '        require(a > 1, "a revert string that is longer than thirty-two bytes");\n        total = total.add(a);\n    }\n}\n')
+    for cat in dl.CATS:
+        every = [n_ for _, n_ in rl.CATS[cat]['table']]
+        root = os.path.join(chk.native.dir, 'ver%d' % chk.native.n); chk.native.n += 1
+        os.makedirs(os.path.join(root, 'legacy'))
+        for k, (rel, pragma, const, note) in enumerate((('Ledger.sol', '^0.8.13', '1.0.0', '4.4.1'), ('legacy/Old.sol', '0.7.6', '0.7.6', '2.9.1'), ('Mid.sol', '>=0.8.4', '0.8.3', '0.8.4'))):
+            open(os.path.join(root, rel), 'w').write('pragma solidity %s;\n' % pragma + body_ % (k, const, note))
+        got, want, raw = dl.native_union(chk, cat, root, every)
+        chk.states += 1
+        if got is None or sorted(got) != sorted(want):
+            chk.violation('%s:analyze_dir:%s' % (cat, 'panic' if got is None else 'dropped' if len(got) < len(want) else 'replaced'),
+                          '%s with every pattern selected on files with version-like strings behind the pragma: analyze_dir returned %r, the union of the per-file results is %r (missing %r)' % (
+                              cat, got if got is not None else raw, want, sorted(set(want) - set(got or []))),
+                          {'job': 'analyze_dir_files', 'category': cat, 'patterns': every, 'listing_by_creation': False, 'expected': want, 'observed': got,
+                           'files': [[rel, 'pragma solidity %s;\n' % pragma + body_ % (k, const, note)] for k, (rel, pragma, const, note) in
+                                     enumerate((('Ledger.sol', '^0.8.13', '1.0.0', '4.4.1'), ('legacy/Old.sol', '0.7.6', '0.7.6', '2.9.1'), ('Mid.sol', '>=0.8.4', '0.8.3', '0.8.4')))]})
+        else:
+            chk.ok()
     chk.sample({'content family': '%d trees x every listing order of the top directory x 3 categories: token-free eligible files (%s) next to files with findings' % (len(trees), ', '.join(kinds))})
 
 
